@@ -112,6 +112,7 @@ func (ctx *LeafExecuteContext) waitCollectGroupingTagsCompleted() (err error) {
 			err = ctx.TaskCtx.Ctx.Err()
 			return
 		case <-ctx.GroupingCtx.collectGroupingTagsCompleted:
+			err = ctx.GroupingCtx.collectError()
 		}
 	}
 	return
